@@ -1731,3 +1731,32 @@ package sftp
 //@ func (*RequestServer).Close
 //@   property C07, C04
 //@   requires rs != nil && rs.serverConn != nil && rs.WriteCloser != nil
+
+// ---------------------------------------------------------------------------
+// C06: byte layout of the wire primitives (packet.go)
+
+//@ func marshalUint32
+//@   property C06
+//@   content
+//@   ensures len(result) == len(b) + 4
+//@   ensures be32(result, len(b)) == v
+//@   ensures forall(i, 0 <= i && i < len(b) ==> result[i] == old(b[i]))
+//@   modifies bytes
+
+//@ func marshalUint64
+//@   property C06
+//@   content
+//@   ensures len(result) == len(b) + 8
+//@   ensures be64(result, len(b)) == v
+//@   ensures forall(i, 0 <= i && i < len(b) ==> result[i] == old(b[i]))
+//@   modifies bytes
+
+//@ func marshalString
+//@   property C06
+//@   content
+//@   requires len(v) <= 0x7fffffff
+//@   ensures len(result) == len(b) + 4 + len(v)
+//@   ensures be32(result, len(b)) == uint32(len(v))
+//@   ensures forall(j, 0 <= j && j < len(v) ==> result[len(b) + 4 + j] == v[j])
+//@   ensures forall(i, 0 <= i && i < len(b) ==> result[i] == old(b[i]))
+//@   modifies bytes
